@@ -45,7 +45,7 @@ func cloneNodes(ns []*wmpt.PersistNodeBase) []*wmpt.PersistNodeBase {
 	return decProof(encProof(ns))
 }
 
-func childWeight(c []byte) uint64 { return binary.BigEndian.Uint64(c[32:40]) }
+func childWeight(c []byte) uint64       { return binary.BigEndian.Uint64(c[32:40]) }
 func setChildWeight(c []byte, w uint64) { binary.BigEndian.PutUint64(c[32:40], w) }
 
 // normalise zeroes every claimed child weight in branches, so that two nodes that differ only there compare equal.
@@ -103,11 +103,11 @@ func isSumPreservingReweight(forged []byte, honest [][]byte) bool {
 }
 
 type c10case struct {
-	c       *fw.Ctx
-	root    []byte
-	model   wl.Model
-	honest  [][]byte // honest proof per block (index b-1)
-	desc    string
+	c      *fw.Ctx
+	root   []byte
+	model  wl.Model
+	honest [][]byte // honest proof per block (index b-1)
+	desc   string
 }
 
 // try submits a forged proof for block b; a forgery is a violation iff verification returns no error, the trusted
@@ -164,6 +164,19 @@ func runC10(c *fw.Ctx) {
 			return
 		}
 		m[string(k)] = wl.Entry{Val: v, W: w}
+	}
+	// hash once, then replace some values by different values of exactly the same weight: every ancestor hash must follow
+	t.Root()
+	for _, k := range m.Keys() {
+		if r.Intn(3) == 0 {
+			v := g.SameWeightValue(m[k].W)
+			if err := t.Update([]byte(k), v, m[k].W); err != nil {
+				c.Violate("", "Update failed: %v", err)
+				return
+			}
+			m[k] = wl.Entry{Val: v, W: m[k].W}
+			c.Count("same_weight_overwrites", 1)
+		}
 	}
 	mode := c.Idx % 3
 	switch mode {
@@ -345,6 +358,14 @@ func runC10(c *fw.Ctx) {
 				ns := cloneNodes(hn)
 				ns[i].Value.Value = append(ns[i].Value.Value, 'x')
 				k.try("T6 value bytes edited", b, encProof(ns))
+				if len(nd.Value.Value) > 34 { // edit confined to the tail of a long value
+					ns = cloneNodes(hn)
+					ns[i].Value.Value[33+r.Intn(len(ns[i].Value.Value)-33)] ^= 0x20
+					k.try("T6 long value edited beyond byte 32", b, encProof(ns))
+					ns = cloneNodes(hn)
+					ns[i].Value.Value = ns[i].Value.Value[:32+r.Intn(len(ns[i].Value.Value)-32)]
+					k.try("T6 long value truncated", b, encProof(ns))
+				}
 				ns = cloneNodes(hn)
 				ns[i].Value.Weight += 1 + uint64(r.Intn(3))
 				k.try("T6 value weight edited", b, encProof(ns))
@@ -393,7 +414,7 @@ func init() {
 	fw.Register(&fw.Prop{
 		ID:    "C10",
 		Level: "exploration",
-		Rule: "each case builds a weighted trie of 2..10 keys (in memory / committed at level 0..4 / committed and reloaded from the hash). Honest half: every block 1..W proves to the reference root with the owner's value. Adversarial half: for every block (thorough) / first, last and three random blocks (quick) the honest proof is decoded with the exported Persist* types, " +
+		Rule: "each case builds a weighted trie of 2..10 keys (a fifth of the values are 80..160 bytes long; after a first Root() a third of the values are replaced by different values of the same weight) (in memory / committed at level 0..4 / committed and reloaded from the hash). Honest half: every block 1..W proves to the reference root with the owner's value. Adversarial half: for every block (thorough) / first, last and three random blocks (quick) the honest proof is decoded with the exported Persist* types, " +
 			"tampered and re-encoded: T1 sum-preserving re-weighting of claimed child weights in each branch (all ordered sibling pairs, deltas 1, 2 and the whole weight; same tail and honest tails of other blocks), T2 sum-changing re-weighting, T3 swapped sibling entries/hashes, T4 nodes or whole proofs from other blocks, positions and another trie, " +
 			"T5 dropped/duplicated/reordered/truncated elements, T6 edited short keys, child weights, value bytes and weights, T7 type confusion (hash/nil/value node in place of an element), T8 bit flips and raw splices. A forged proof is a violation iff verification returns no error, the trusted root and a value different from the true owner's. " +
 			"distinct non-trivial = distinct (trie root, mode)",
@@ -405,7 +426,7 @@ func init() {
 		},
 		Run: runC10,
 		Floors: map[string]int64{"tries": 1000, "honest_proofs_verified": 20000, "tamperings": 1000000, "tamper:T2 sum-changing re-weighting": 10000, "tamper:T1 sum-preserving re-weighting": 10000, "tamper:T3 swapped sibling hashes": 10000,
-			"tamper:T4 honest proof of another block": 10000, "tamper:T5 dropped element": 10000, "tamper:T6 value weight edited": 5000, "tamper:T7 element replaced by a hash node": 10000, "tamper:T8 bit flips": 50000, "rejected_with_error": 100000, "rejected_other_root": 100000},
+			"tamper:T4 honest proof of another block": 10000, "tamper:T5 dropped element": 10000, "tamper:T6 value weight edited": 5000, "tamper:T7 element replaced by a hash node": 10000, "tamper:T8 bit flips": 50000, "rejected_with_error": 100000, "rejected_other_root": 100000, "same_weight_overwrites": 1000, "tamper:T6 long value edited beyond byte 32": 500},
 		Assumptions: []string{
 			"the adversarial half ranges over structured tamperings of honest proofs and random byte edits, not over all byte strings",
 			"forgeries that differ from honest proofs only in claimed child weights with unchanged branch sums are classified as the known finding reweight-sum-preserving (the branch hash binds only the sum)",
